@@ -309,3 +309,12 @@ package linkedhashset
 //@     invariant ItInv(iterator) && iterator.iterator.list == set.ordering && fresh(iterator) && fresh(newSet) && Inv(newSet) && fresh(newSet.table) && fresh(newSet.ordering) && newSet != set && N(newSet) <= min(iterator.iterator.index + 1, N(set))
 //@     invariant forall j :: 0 <= j && j <= iterator.iterator.index && j < N(set) ==> Mem(newSet, f(j, K(set)[j]))
 //@     decreases N(set) - iterator.iterator.index
+
+//@ -- String: starts with the container's name; reads only (C15, C18)
+//@ func Set.String
+//@   requires Inv(set)
+//@   modifies nothing
+//@   ensures [C15 C17 C18] hasPrefix(result, "LinkedHashSet")
+//@   loop 1:
+//@     invariant ItInv(it) && it.iterator.list == set.ordering && fresh(it) && (isnil(items) || fresh(arr(items)))
+//@     decreases N(set) - it.iterator.index
